@@ -281,6 +281,8 @@ def run_impl(case, dbfile=None):
         gh = None if case.get("gh") is None else {(int(k.split(">")[0]), int(k.split(">")[1])): v for k, v in case["gh"].items()}
         tr = m["GraphTransport"](m["TargetURI"](DB_TARGET), parse_edges(case), case["rst"], gh,
                                  case.get("pre", ()), case.get("post", ()), case.get("boot", 0))
+    if case.get("start") and "vecu" not in case:
+        tr.cur = case["start"]   # the ECU was left in another session (by an earlier scan, another tester); the client assumes 0x01
     if case.get("pre") or case.get("post"):
         sc.ecu = m["HookedECU"](tr, timeout=2.0, max_retry=case["max_retry"])
         sc.ecu.pre_pdus = [bytes([x >> 8, x & 0xFF]) for x in case.get("pre", ())]
@@ -332,12 +334,27 @@ def run_impl(case, dbfile=None):
         "exit": status,
         "result": [int(x) for x in sc.result],
         "rows": pos_rows,
-        "reqs": [f"{p}@{c}" for p, c, _ in tr.log],
+        # a scan that begins with a reset / the stack recovery `10 01` puts the ECU into the default session wherever it was left: the
+        # session on arrival of those first requests (reset, pings, `10 01` of the recovery) is the only place where the ECU's start
+        # session may show; a probe that arrives while the ECU is still there is shown as it is
+        "reqs": _reqs_view(tr.log, case.get("start")),
         "recover_flags": [bool(r) for _, _, r in tr.log],
         "client_session": int(sc.ecu.state.session),
         "ecu_session": tr.cur,
         "db_lookups": getattr(sc.db_handler, "lookups", 0),
     }
+
+
+def _reqs_view(log, start):
+    out = []
+    settling = bool(start)
+    for p, c, r in log:
+        if settling and c == start and (p[:2] == "11" or p == "3e00" or (p == "1001" and r)):
+            out.append(f"{p}@1")
+            continue
+        settling = False
+        out.append(f"{p}@{c}")
+    return out
 
 
 def _worker(cases):
@@ -648,6 +665,11 @@ def rand_case(rng, widened=False):
                    boot=rng.choice([0, 0, 1, 2, 3]) if reset else 0)
     if case["thorough"] and n_walks(case, 40) > 40:
         case["thorough"] = False
+    if reentry and not with_class and len(ids) > 1 and rng.random() < 0.15 and in_class(case):
+        case["start"] = rng.choice(ids[1:])   # ECU not in the default session when the scan starts
+        shape += "+ecu-left-in-another-session"
+        if rng.random() < 0.5 and 1 not in case["skip"]:
+            case["skip"] = sorted(set(case["skip"]) | {1})
     return case, shape + ("" if reentry else "+no-reentry")
 
 
